@@ -321,6 +321,45 @@ fn entry(name: &str, data: &[u8], aux: &[u8]) -> Option<bool> {
       }
       Err(_) => false,
     },
+    // the same strings through serde (a JSON string): Deserialize must be as total as `parse`
+    "didserde" => match serde_json::from_str::<CoreDID>(&serde_json::to_string(&s).unwrap_or_default()) {
+      Ok(d) => {
+        walk_did(&d);
+        true
+      }
+      Err(_) => false,
+    },
+    "urlserde" => match serde_json::from_str::<DIDUrl>(&serde_json::to_string(&s).unwrap_or_default()) {
+      Ok(u) => {
+        walk_url(&u);
+        true
+      }
+      Err(_) => false,
+    },
+    "iotaserde" => match serde_json::from_str::<IotaDID>(&serde_json::to_string(&s).unwrap_or_default()) {
+      Ok(d) => {
+        st("accessors");
+        let _ = (d.network_str().len(), d.tag_str().len(), d.to_string());
+        true
+      }
+      Err(_) => false,
+    },
+    "didjwkserde" => match serde_json::from_str::<DIDJwk>(&serde_json::to_string(&s).unwrap_or_default()) {
+      Ok(d) => {
+        st("jwk");
+        let _ = d.jwk();
+        true
+      }
+      Err(_) => false,
+    },
+    "tsfromstr" => match s.parse::<Timestamp>() {
+      Ok(t) => {
+        st("to_rfc3339");
+        let _ = (t.to_rfc3339(), t.to_unix());
+        true
+      }
+      Err(_) => false,
+    },
     "join" => {
       let seg = String::from_utf8_lossy(aux).to_string();
       match DIDUrl::parse(&s) {
@@ -860,6 +899,23 @@ fn canon(name: &str, data: &[u8]) -> Vec<u8> {
   }
 }
 fn emit(out: &mut impl Write, name: &str, data: &[u8]) {
+  // every string for a parser also goes through the type's serde / FromStr path
+  let twin = match name {
+    "did" => Some("didserde"),
+    "url" => Some("urlserde"),
+    "iota" => Some("iotaserde"),
+    "didjwk" => Some("didjwkserde"),
+    "ts" => Some("tsjsonstr"),
+    _ => None,
+  };
+  if let Some(t) = twin {
+    if t == "tsjsonstr" {
+      writeln!(out, "C05 tsjson {}", hex(serde_json::to_string(&String::from_utf8_lossy(data).to_string()).unwrap_or_default().as_bytes())).unwrap();
+      writeln!(out, "C05 tsfromstr {}", hex(&canon("ts", data))).unwrap();
+    } else {
+      writeln!(out, "C05 {} {}", t, hex(&canon(t, data))).unwrap();
+    }
+  }
   if name == "iota" {
     return emit2(out, name, data, b"");
   }
